@@ -717,6 +717,35 @@ def qabs(q):
 
 
 _OPAQUE = {}
+NUMERIC = [False]  # translator validation only: opaque functions of constant arguments are evaluated in floating point
+
+
+def _numeric(name, zs):
+    import cmath
+    import math
+    z = zs[0]
+    try:
+        if name == "sqrt":
+            return math.sqrt(z.real) if z.imag == 0 and z.real >= 0 else cmath.sqrt(z)
+        if name == "exp":
+            return math.exp(z.real) if z.imag == 0 else cmath.exp(z)
+        if name == "log":
+            return math.log(z.real) if z.imag == 0 and z.real > 0 else cmath.log(z)
+        if name == "cos":
+            return math.cos(z.real) if z.imag == 0 else cmath.cos(z)
+        if name == "sin":
+            return math.sin(z.real) if z.imag == 0 else cmath.sin(z)
+        if name == "erf" and z.imag == 0:
+            return math.erf(z.real)
+        if name == "acosh" and z.imag == 0:
+            return math.acosh(z.real)
+        if name == "abs":
+            return abs(z)
+        if name == "atan2":
+            return math.atan2(zs[0].real, zs[1].real)
+    except (ValueError, OverflowError):
+        return None
+    return None
 
 
 def q_key(q):
@@ -739,14 +768,22 @@ def _cross(q):
     return num, den
 
 
-def opaque_fn(name, args, is_real, semantic=True):
+def opaque_fn(name, args, is_real, semantic=None):
     """uninterpreted function application with congruence: syntactically equal argument
     terms give the same atom; if `semantic`, a side query also merges arguments the solver
     proves equal.  Contracts (facts) are attached per function name."""
     args = [Q.lift(a) for a in args]
+    if NUMERIC[0] and args and all(a.isconst() for a in args):
+        v = _numeric(name, [complex(float(a.c[0]), float(a.c[1])) for a in args])
+        if v is not None:
+            return Q((Fraction(v.real), Fraction(v.imag))) if isinstance(v, complex) else Q(Fraction(float(v)))
     key = (name, tuple(q_key(a) for a in args))
     if key in _OPAQUE:
         return _OPAQUE[key]
+    if semantic is None:
+        # canonical (polynomial) arguments: equal values have equal keys; only arguments containing z3 terms (after an
+        # if-then-else / abs) need the solver to recognise equality
+        semantic = any(z3.is_expr(x) for a in args for x in a.c)
     if semantic:
         for (n2, k2), (val, args2) in list(_OPAQUE_ARGS.items()):
             if n2 != name or len(args2) != len(args):
